@@ -320,6 +320,35 @@ def r18_5(chk, P):
     return len(entries)
 
 
+def r18_8(chk, P):
+    chk.rule('R18.8', 'a block fill or copy covers the elements it is meant to cover: in every library function the size argument of '
+             'memset / memcpy / memmove on a destination whose elements are wider than a byte is a byte count -- a constant the '
+             'front end folded, or an expression with a sizeof factor.  A bare element count (`memset(p+done,0,n-done)` on floats) '
+             'fills a quarter of the span and leaves the rest holding whatever the stack or the heap held before: the output '
+             'then depends on freed or uninitialised memory')
+    n = 0
+    for F in P.functions():
+        for c in sorted(F.calls(), key=lambda x: F.ex[x].get('loc') or [0, 0]):
+            nm = F.ex[c]['callee'].get('d')
+            if nm not in ('memset', 'memcpy', 'memmove') or len(F.ex[c].get('c', [])) < 3:
+                continue
+            a = F.ex[c]['c']
+            dt = F.ex[F.strip_casts(a[0])].get('t', '')
+            el = dt.replace('const ', '').strip()
+            el = el[:el.index('[')].strip() if '[' in el else el.rstrip('*').strip() if el.endswith('*') else el
+            if el in ('char', 'unsigned char', 'signed char', 'void'):
+                continue
+            folded = common.const_val(F, a[2]) is not None
+            has = any(F.ex[q].get('from') == 'sizeof' for q in F.walk(a[2]))
+            same = [x for x in F.calls() if F.ex[x]['callee'].get('d') == nm]
+            same.sort(key=lambda x: F.ex[x].get('loc') or [0, 0])
+            chk.ob('R18.8', F.name, f'{nm}#{same.index(c)}:size-is-a-byte-count', folded or has, F.where(c),
+                   f'`{F.s(a[2])[:60]}`: ' + ('constant' if folded else 'has a sizeof factor' if has else
+                   f'no sizeof factor although the destination elements are `{el}`: an element count is used as a byte count'))
+            n += 1
+    return n
+
+
 def run(chk, P):
     E = getattr(P, '_effects', None) or k3.Effects(P)
     P._effects = E
@@ -344,6 +373,8 @@ def run(chk, P):
     chk.floor('R18.6', 2)
     r18_7(chk, P)
     chk.floor('R18.7', 3)
+    r18_8(chk, P)
+    chk.floor('R18.8', 50)
     selftest(chk, P)
     unk = sorted({u for S in E.st.values() for u in S.unknown_calls})
     chk.notes.append(f'K3: fixpoint in {E.iterations} rounds; {nsites} direct store/free sites classified; '
